@@ -98,6 +98,49 @@ def run(rep):
                     rep.fail("lca-not-exact", "_find_lcas differs from the maximal common ancestors (%s, want %s)" % (got, want), case)
                 j += 1; k += 1
     rep.extra["exhaustive_up_to"] = 5 if thorough else 4
+    # chains with one or two merge commits on top (octopus merges included): the shapes on which the order of
+    # discovery of nested candidates matters; many timestamp orders each, every query pair
+    fam = []
+    for k in range(3, 6 if not thorough else 7):
+        chain = [[]] + [[i - 1] for i in range(1, k)]
+        for size in range(2, min(k, 4) + 1):
+            for ps in itertools.combinations(range(k), size):
+                fam.append(chain + [list(ps)])
+                if k <= 4:
+                    for ps2 in itertools.combinations(range(k + 1), 2):
+                        fam.append(chain + [list(ps), list(ps2)])
+    reqs, meta = [], []
+    for d in fam:
+        n = len(d)
+        stamps = [tuple(rng.randrange(n) for _ in range(n)) for _ in range(120 if not thorough else 1500)]
+        queries = [(a, [b]) for a in range(n) for b in range(n) if a != b]
+        reqs.append({"fn": "lcas_batch", "dag": dag_str(d), "stamps": [list(x) for x in stamps], "queries": queries})
+        meta.append((d, stamps, queries))
+    lines = []
+    for (d, stamps, queries) in meta:
+        for s in stamps[:6]:
+            for (a, bs) in queries:
+                lines.append("lcas %s %s %d %s" % (dag_str(d), ",".join(map(str, s)), a, ".".join(map(str, bs))))
+    mres = iter(model.run(lines))
+    nfam = 0
+    for (d, stamps, queries), r in zip(meta, impl.run(reqs)):
+        v = r.get("v") if isinstance(r, dict) else None
+        wants = {(a, tuple(bs)): ".".join(map(str, max_common(d, a, bs))) or "-" for (a, bs) in queries}
+        j = 0
+        for si, s in enumerate(stamps):
+            for (a, bs) in queries:
+                got = v[j] if v else "worker:" + str(r)[:80]
+                want = wants[(a, tuple(bs))]
+                case = {"dag": dag_str(d), "stamps": list(s), "c1": a, "c2s": bs}
+                if si < 6:
+                    m = next(mres)
+                    if m != got:
+                        rep.disagree("_find_lcas vs Lca.find_lcas", case, m, got)
+                if got != want:
+                    rep.fail("lca-not-exact", "_find_lcas differs from the maximal common ancestors (%s, want %s)" % (got, want), case)
+                j += 1; nfam += 1
+        rep.case("lcas-chain-octopus", key=dag_str(d), nontrivial=True, sample={"dag": dag_str(d), "stamp_vectors": len(stamps), "queries": len(queries)})
+    rep.extra["chain_octopus_evaluations"] = nfam
     # random larger DAGs through the repository API
     reqs, meta, lines = [], [], []
     for _ in range(40 if not thorough else 600):
@@ -143,6 +186,81 @@ def run(rep):
             if got != (".".join(map(str, want)) or "-"):
                 rep.fail("independent-not-exact", "independent(%s) = %s, want %s" % (s, got, want), {"dag": dag_str(d), "set": s})
             rep.case("independent", key=(dag_str(d), tuple(s)), nontrivial=True)
+    # ---- history walks
+    reqs, meta = [], []
+    nw = 60 if not thorough else 900
+    for k in range(nw):
+        n = rng.choice([3, 6, 9, 14, 30] + ([80, 200] if thorough else []))
+        d = random_dag(rng, n)
+        mode = rng.choice(["mono", "mono", "ties", "equal", "skew"])
+        if mode == "skew":
+            stamps = [rng.randrange(0, 50) for _ in range(n)]
+        else:
+            stamps, t = [], 100
+            for i in range(n):
+                # parents have smaller indexes: non-decreasing along the index is monotone along every edge
+                t += 0 if mode == "equal" else rng.choice([0, 0, 1, 5]) if mode == "ties" else rng.randrange(1, 9)
+                stamps.append(t)
+        ws = []
+        for _ in range(8):
+            inc = rng.sample(range(n), rng.choice([1, 1, 2, 3]))
+            exc = rng.sample(range(n), rng.choice([0, 0, 1, 1, 2]))
+            w = {"inc": inc, "exc": exc, "order": rng.choice(["date", "topo"]), "rev": rng.random() < 0.3, "max": None, "since": None, "until": None}
+            r = rng.random()
+            if r < 0.15:
+                w["max"] = rng.randrange(0, n + 2)
+            elif r < 0.3 and mode != "skew":
+                w["since"] = rng.choice(stamps)
+            elif r < 0.45:
+                w["until"] = rng.choice(stamps)
+            ws.append(w)
+        # the shape of the recorded regression: an excluded run sharing one timestamp above an included root
+        if k % 10 == 0:
+            m = rng.randrange(6, 12)
+            d = [[]] + [[i - 1] for i in range(1, m)] + [[0]]
+            stamps = [100] * (m + 1)
+            ws = [{"inc": [m, 0], "exc": [m - 1], "order": o, "rev": rv, "max": None, "since": None, "until": None} for o in ("date", "topo") for rv in (False, True)] + \
+                 [{"inc": [0], "exc": [m - 1], "order": "date", "rev": False, "max": None, "since": None, "until": None}]
+            mode = "equal"
+        reqs.append({"fn": "walks", "dag": dag_str(d), "stamps": stamps, "walks": ws, "git": k < (25 if not thorough else 300)})
+        meta.append((d, stamps, ws, mode))
+    for q, (d, stamps, ws, mode), r in zip(reqs, meta, impl.run(reqs)):
+        v = r.get("v") if isinstance(r, dict) else None
+        if v is None:
+            rep.fail("walk-worker", "walker worker failed: %r" % (r,), {"dag": dag_str(d)})
+            continue
+        for wi, (w, got) in enumerate(zip(ws, v)):
+            case = {"dag": dag_str(d), "stamps": stamps, "walk": w}
+            rep.case("walk-" + mode, key=(dag_str(d), tuple(stamps), repr(w)), nontrivial=len(d) > 2, sample=case)
+            if isinstance(got, str):
+                rep.fail("walk-raised", "Walker raised %s" % got, case)
+                continue
+            reach = set().union(*[closure(d, i) for i in w["inc"]])
+            excl = set().union(*[closure(d, i) for i in w["exc"]]) if w["exc"] else set()
+            if len(set(got)) != len(got):
+                rep.fail("walk-duplicate", "a commit is yielded twice: %s" % got, case)
+            if not set(got) <= reach:
+                rep.fail("walk-unreachable", "a commit not reachable from the starting points is yielded: %s" % sorted(set(got) - reach), case)
+            plain = w["max"] is None and w["since"] is None and w["until"] is None
+            exact = mode != "skew" or not w["exc"]
+            if plain and exact and set(got) != reach - excl:
+                rep.fail("walk-set", "walk yields %s, reachable minus excluded is %s (timestamps %s)" % (sorted(got), sorted(reach - excl), "monotone" if mode != "skew" else "skewed, no excludes"), case)
+            if mode != "skew" and w["max"] is None and (w["since"] is not None or w["until"] is not None):
+                want = {c for c in reach - excl if (w["since"] is None or stamps[c] >= w["since"]) and (w["until"] is None or stamps[c] <= w["until"])}
+                if set(got) != want:
+                    rep.fail("walk-since-until", "walk with since/until yields %s, want %s" % (sorted(got), sorted(want)), case)
+            if w["order"] == "topo":
+                pos = {c: i for i, c in enumerate(got if not w["rev"] else got[::-1])}
+                bad = [(c, p) for c in pos for p in d[c] if p in pos and pos[p] < pos[c]]
+                if bad:
+                    rep.fail("walk-topo", "topological order yields parent %d before child %d" % (bad[0][1], bad[0][0]), case)
+            if w["max"] is not None and len(got) > w["max"]:
+                rep.fail("walk-max", "max_entries=%d but %d commits yielded" % (w["max"], len(got)), case)
+            if "git" in r and plain and mode != "skew":
+                g = r["git"][wi]
+                rep.case("walk-git", key=(dag_str(d), tuple(stamps), repr(w)), nontrivial=True)
+                if set(g) != set(got):
+                    rep.fail("walk-differs-from-git", "git rev-list yields %s, the walker %s" % (sorted(g), sorted(got)), case)
     # git as oracle on a sample
     reqs, meta = [], []
     for _ in range(6 if not thorough else 80):
